@@ -189,6 +189,19 @@ CHECKS["C10"] = {
     ],
 }
 
+NETP = "./internal/net/"
+CHECKS["C11"] = {
+    "engine": "wire",
+    "level": "exploration",
+    "technique": "property-based testing (rapid) of the real message sender over fake streams with scripted honest responders under synctest virtual time; request-id echo oracle and per-stream history invariants",
+    "level_text": "Generated client schedules (concurrent requests, cancellation instants, disconnects, failing stream opens) and responder scripts (delays around the read timeout, resets, closes, garbage, silence) run against the real "
+                  "messageSenderImpl; each request carries a unique id that an honest responder echoes, so a mismatched reply is directly visible; per-stream histories give the serialization/reset clauses. Exploration.",
+    "level_note": "Virtual time fixes the order of every reply, timeout and cancellation; interleavings below the level of blocking operations are not controlled; the in-memory pipe stands in for a libp2p stream.",
+    "parts": [
+        {"part": "message-sender", "pkg": NETP, "test": "TestVerif_C11_MessageSender", "quick": 2000, "thorough": 30000},
+    ],
+}
+
 MANIFEST_HEAD = {
     "version": 1,
     "setup_cmd": "bin/check --setup",
